@@ -61,16 +61,17 @@ Update(W) ==
   /\ hist' = Append(hist, [op |-> "update", mode |-> mode, encf |-> encf, w |-> W, conc |-> FALSE])
 
 \* A peer that received the document but holds no key writes field f itself (in clear: it has nothing to encrypt with)
-\* and the owner merges that write. conc: the owner updates f on its own head before it merges, so f has two heads,
-\* the owner's and the peer's; otherwise the peer's block is the only head. Whatever the heads look like, what the
-\* OWNER writes to a covered field afterwards must be encrypted. (The peer's own value is not a secret of the owner and
-\* is not recorded in blocks.)
+\* and the owner merges that write. The peer could not process the encrypted blocks of a covered field, so for it the
+\* field has no head: its block has no parents and, once merged by the owner, stands NEXT TO the owner's encrypted head
+\* ("mixed"). An uncovered field was readable for the peer: its block replaces the head. conc: the owner also updates f
+\* on its own head before it merges. Whatever the heads look like, what the OWNER writes to a covered field
+\* afterwards must be encrypted. (The peer's own value is not a secret of the owner and is not recorded in blocks.)
 PeerWrite(f, conc) ==
   /\ created /\ npeer < MaxPeer /\ lastEnc[f] # "nohead"
   /\ LET own == IF conc THEN WriteAll(<<f>>, [blocks |-> blocks, lastEnc |-> lastEnc, tok |-> tok], FALSE, 0)
                 ELSE [blocks |-> blocks, lastEnc |-> lastEnc, tok |-> tok] IN
      /\ blocks' = own.blocks /\ tok' = own.tok
-     /\ lastEnc' = [own.lastEnc EXCEPT ![f] = IF conc /\ own.lastEnc[f] = "enc" THEN "mixed" ELSE "plain"]
+     /\ lastEnc' = [own.lastEnc EXCEPT ![f] = IF own.lastEnc[f] \in {"enc", "mixed"} THEN "mixed" ELSE "plain"]
   /\ npeer' = npeer + 1 /\ UNCHANGED <<mode, encf, created, nupd>>
   /\ hist' = Append(hist, [op |-> "peerwrite", mode |-> mode, encf |-> encf, w |-> {f}, conc |-> conc])
 
